@@ -155,6 +155,17 @@ def extract_reuse_info(text: str) -> ReuseInfo:
                 )
             )
             raise
+        except IndexError as error:
+            # license_expression crashes on some malformed expressions, e.g.
+            # '()'. Treat that like any other unparseable expression.
+            _LOGGER.error(
+                _("Could not parse '{expression}'").format(
+                    expression=expression
+                )
+            )
+            raise ExpressionError(
+                f"Invalid license expression: {expression}"
+            ) from error
     for line in text.splitlines():
         for pattern in _COPYRIGHT_PATTERNS:
             match = pattern.search(line)
